@@ -228,7 +228,133 @@ func c09body(sess c09session) func(x *vexp.Ctx) {
 	}
 }
 
+// F8: the peer process stops reading (its socket buffer fills up, the local send loop blocks INSIDE the socket
+// write, the third application Send blocks on the exhausted window) and then half-closes or resets. Only the local
+// (client) side is judged: the stalled peer never reads again.
+var c09f8len int64
+
+func c09f8body(x *vexp.Ctx) {
+	for k, v := range map[string]int{"window": 250, "wbuf": 16, "rbuf": 16} {
+		if _, ok := x.Params[k]; !ok {
+			x.Params[k] = v
+		}
+	}
+	r := &c09rec{}
+	w := newWide(x, HandleFunc(func(ctx Context, ch Channel) status.Status {
+		r.handlers++
+		defer func() { r.exits++ }()
+		vsched.Recv(ctx.Wait())
+		return ctx.Status()
+	}))
+	w.a.Record()
+	k, mode := int64(x.P("k", -1)), x.P("mode", 0)
+	stalled := false
+	if k >= 0 {
+		w.b.StallAfterRead(k, func() {
+			stalled = true
+			switch mode {
+			case 0:
+				w.b.CloseWrite() // FIN at once
+			case 1:
+				// FIN later, once everything local is blocked (below)
+			}
+		})
+	}
+	cDone := false
+	vsched.GoNamed("client", func() {
+		defer func() {
+			if e := recover(); e != nil {
+				x.Fail("client call panics: "+errSig(fmt.Sprint(e)), "%v", e)
+			}
+			cDone = true
+		}()
+		ctx := async.NoContext()
+		ch, st := w.cli.Channel(ctx)
+		if !r.call("Channel", st).OK() {
+			return
+		}
+		defer ch.Free()
+		r.ctxs = append(r.ctxs, ch.Context())
+		// the socket buffer becomes tiny only now: the handshake (shorter than any real socket buffer) is
+		// never blocked by it
+		w.a.SetWriteCapacity(32)
+		for i := 0; i < 4; i++ {
+			if !r.call("Send", ch.Send(ctx, r.send(vPayload(0, 0, i, 100)))).OK() {
+				return
+			}
+		}
+		_, st = ch.Receive(ctx) // the handler never answers: blocks until the channel or the connection ends
+		r.call("Receive", st)
+	})
+	vsched.WaitIdle("session quiescent")
+	if k < 0 {
+		c09f8len = int64(len(w.a.Written()))
+		w.shutdown()
+		x.Outcome = fmt.Sprintf("recorded %d", c09f8len)
+		return
+	}
+	if !stalled {
+		x.Outcome = "fault point not reached"
+		w.shutdown()
+		return
+	}
+	switch mode {
+	case 1:
+		w.b.CloseWrite()
+	case 2:
+		w.b.Break()
+	}
+	// the local connection must come down by itself and release every local waiter
+	vsched.Join("client connection closed and client calls returned", func() bool { return w.cliDone && cDone })
+	last := r.calls[len(r.calls)-1]
+	if last[len(last)-3:] == "=ok" {
+		x.Fail("an operation cut short by a transport failure reports OK", "calls=%v", r.calls)
+	}
+	for i, c := range r.ctxs {
+		if !c.Done() {
+			x.Fail("channel context not cancelled after the connection failed", "context #%d of %d is still live", i, len(r.ctxs))
+		}
+	}
+	if !w.cli.closed.IsSet() {
+		x.Fail("connection not closed after a transport failure", "cli closed=%v", w.cli.closed.IsSet())
+	}
+	if _, st := w.cli.Channel(async.NoContext()); st.OK() {
+		x.Fail("Channel() succeeds on a failed connection", "status OK")
+	}
+	for _, e := range w.log.Errors {
+		if contains(e, "panic") {
+			x.Fail("panic logged: "+errSig(e), "%s", e)
+		}
+	}
+	x.Outcome = fmt.Sprintf("ncalls=%d last=%s", len(r.calls), last)
+	// teardown of the stalled peer
+	w.b.Unstall()
+	w.b.Break()
+	vsched.Join("peer side torn down", func() bool { return w.srvDone && r.exits == r.handlers })
+}
+
 func init() {
+	vexp.Register(&vexp.Scenario{
+		Name: "c09.F8.peer-stops-reading", Prop: "C09", MaxSteps: 200000,
+		Doc: "socket buffer of 32 bytes, window 250, 100-byte messages: the peer stops reading after EVERY byte offset k of the client's stream, so the local send loop blocks inside the socket write while a Send waits for the window; then the peer half-closes at once / half-closes after everything local is blocked / resets: the local connection must close, cancel its channel contexts and release every blocked Send/Receive with a non-OK status",
+		Bounds: func(thorough bool) vexp.Bounds {
+			if thorough {
+				return vexp.Bounds{P: 1, F: 0, E: 0}
+			}
+			return vexp.Bounds{P: 0, F: 1, E: 0}
+		},
+		Configs: func(thorough bool) []map[string]int {
+			vexp.RunOnce(vexp.Get("c09.F8.peer-stops-reading"), map[string]int{"k": -1}, nil, false)
+			var out []map[string]int
+			for k := int64(0); k <= c09f8len; k++ {
+				for mode := 0; mode < 3; mode++ {
+					out = append(out, map[string]int{"k": int(k), "mode": mode})
+				}
+			}
+			return out
+		},
+		Body: c09f8body,
+	})
 	for _, sess := range c09sessions() {
 		sess := sess
 		vexp.Register(&vexp.Scenario{
